@@ -379,3 +379,491 @@ Proof.
   - eexists ((5, cp) :: (4, _) :: new). split; [reflexivity|].
     apply keys_cons; [lia|]. apply keys_cons; [lia | assumption].
 Qed.
+
+(* ------------------------------------------------------------------ token classes *)
+Definition tok_type (t : token) : bytes := snd (fst t).
+Definition is_tag (t : token) : bool := beq (tok_type t) t_tag.
+Definition is_err (t : token) : bool := beq (tok_type t) tok_error.
+Definition quiet (t : token) : Prop := is_tag t = false /\ is_err t = false.
+Definition tagvals (toks : list token) : list text := map tok_val (filter is_tag toks).
+Definition errors (toks : list token) : list token := filter is_err toks.
+Definition oracle_quiet (o : bytes -> text -> option (list token)) : Prop :=
+  forall name txt toks, o name txt = Some toks -> Forall quiet toks.
+
+Lemma quiet_none toks : Forall quiet toks -> tagvals toks = [] /\ errors toks = [].
+Proof.
+  unfold tagvals, errors. induction 1 as [|t toks [H1 H2] _ [IH1 IH2]]; [split; reflexivity|].
+  simpl. rewrite H1, H2. split; assumption.
+Qed.
+
+Lemma tagvals_app a b : tagvals (a ++ b) = tagvals a ++ tagvals b.
+Proof. unfold tagvals. rewrite filter_app, map_app. reflexivity. Qed.
+Lemma errors_app a b : errors (a ++ b) = errors a ++ errors b.
+Proof. unfold errors. apply filter_app. Qed.
+
+Lemma shift_quiet s toks : Forall quiet toks -> Forall quiet (shift s toks).
+Proof.
+  unfold shift. induction 1 as [|[[i ty] v] toks H _ IH]; simpl; constructor; assumption.
+Qed.
+
+Definition qtypeb (t : bytes) : bool := negb (beq t t_tag) && negb (beq t tok_error).
+Definition qargb (a : gaction) : bool :=
+  match a with
+  | GTok t => qtypeb t
+  | GNone => true
+  | GUsing (UOther _) => true
+  | GUsing (UThis stk) => list_eqb beq (frev stk) [st_diff; st_root]
+  end.
+Definition qactionb (a : action) : bool :=
+  match a with
+  | ATok t => qtypeb t
+  | AByGroups args => forallb qargb args
+  | AUsing (UOther _) => true
+  | AUsing (UThis _) => false
+  end.
+
+Lemma qtypeb_quiet i t v : qtypeb t = true -> quiet (i, t, v).
+Proof.
+  unfold qtypeb, quiet, is_tag, is_err, tok_type. cbn [fst snd]. intros H. apply andb_true_iff in H.
+  destruct H as [A C]. apply negb_true_iff in A. apply negb_true_iff in C. split; assumption.
+Qed.
+
+Lemma beq_eq (a b : bytes) : beq a b = true -> a = b.
+Proof.
+  unfold beq. revert b. induction a as [|x a IH]; intros [|y b]; simpl; intros H; try discriminate; [reflexivity|].
+  apply andb_true_iff in H. destruct H as [E H]. apply Byte.byte_dec_bl in E. subst. f_equal. auto.
+Qed.
+
+Lemma stack_eq (a b : list bytes) : list_eqb beq a b = true -> a = b.
+Proof.
+  revert b. induction a as [|x a IH]; intros [|y b]; simpl; intros H; try discriminate; [reflexivity|].
+  apply andb_true_iff in H. destruct H as [E H]. apply beq_eq in E. subst. f_equal. auto.
+Qed.
+
+Section Quiet.
+  Variable oracle : bytes -> text -> option (list token).
+  Hypothesis Hq : oracle_quiet oracle.
+  Variable self : stack -> mstate -> lexres.
+  Hypothesis Hself : forall st toks, self [st_diff; st_root] st = LOk toks -> Forall quiet toks.
+
+  Lemma run_using_quiet u start txt toks :
+    match u with UThis stk => frev stk = [st_diff; st_root] | UOther _ => True end ->
+    run_using oracle self u start txt = LOk toks -> Forall quiet toks.
+  Proof.
+    destruct u as [stk|name]; simpl.
+    - intros E. rewrite E. destruct (self [st_diff; st_root] (init_state txt)) eqn:S; simpl; try discriminate.
+      intros H. inversion H; subst. apply shift_quiet. eapply Hself; eauto.
+    - intros _. destruct (oracle name txt) eqn:O; try discriminate. intros H. inversion H; subst.
+      apply shift_quiet. eapply Hq; eauto.
+  Qed.
+
+  Lemma run_groups_quiet ng c : forall args i toks,
+    forallb qargb args = true -> run_groups oracle self args i ng c = LOk toks -> Forall quiet toks.
+  Proof.
+    induction args as [|a args IH]; intros i toks Ha H.
+    - inversion H. constructor.
+    - cbn [forallb] in Ha. apply andb_true_iff in Ha. destruct Ha as [Ha Hr]. cbn [run_groups] in H.
+      destruct a as [t| |u].
+      + destruct (Nat.ltb ng i); [discriminate|].
+        destruct (run_groups oracle self args (S i) ng c) as [rest| | | |] eqn:E; simpl in H; try discriminate.
+        specialize (IH _ _ Hr E).
+        destruct (getcap i c) as [cp|]; [|inversion H; subst; assumption].
+        destruct (cap_text cp); inversion H; subst; [assumption|].
+        constructor; [apply qtypeb_quiet; exact Ha | assumption].
+      + eauto.
+      + destruct (Nat.ltb ng i); [discriminate|].
+        destruct (getcap i c) as [cp|]; [|eauto].
+        destruct (run_using oracle self u (c_start cp) (cap_text cp)) as [t1| | | |] eqn:E1; simpl in H; try discriminate.
+        destruct (run_groups oracle self args (S i) ng c) as [rest| | | |] eqn:E; simpl in H; try discriminate.
+        inversion H; subst. apply Forall_app. split; [|eauto].
+        eapply run_using_quiet; [|exact E1]. destruct u as [stk|name]; [|exact I].
+        simpl in Ha. apply stack_eq. exact Ha.
+  Qed.
+
+  Lemma run_action_quiet r st st1 c toks :
+    qactionb (r_act r) = true -> run_action oracle self r st st1 c = LOk toks -> Forall quiet toks.
+  Proof.
+    unfold run_action. destruct (r_act r) as [t|args|u]; simpl; intros Ha H.
+    - inversion H; subst. constructor; [apply qtypeb_quiet; exact Ha | constructor].
+    - eapply run_groups_quiet; eauto.
+    - destruct u as [stk|name]; [discriminate|]. eapply run_using_quiet; [|exact H]. exact I.
+  Qed.
+
+  (* a bygroups action whose first group is the header tag *)
+  Lemma bygroups_tag args ng new cp x h toks :
+    forallb qargb args = true -> 1 <= ng -> keys_ge2 new -> cap_text cp = x :: h ->
+    run_groups oracle self (GTok t_tag :: args) 1 ng (new ++ [(1, cp)]) = LOk toks ->
+    tagvals toks = [x :: h] /\ errors toks = [].
+  Proof.
+    intros Ha Hng Hnew Hcp H. cbn [run_groups] in H.
+    assert (L : Nat.ltb ng 1 = false) by (apply Nat.ltb_ge; lia). rewrite L in H.
+    destruct (run_groups oracle self args 2 ng (new ++ [(1, cp)])) as [rest| | | |] eqn:E; simpl in H; try discriminate.
+    assert (G : getcap 1 (new ++ [(1, cp)]) = Some cp).
+    { rewrite getcap_app, getcap_notin; [reflexivity|]. intro I. apply Hnew in I. lia. }
+    rewrite G, Hcp in H. inversion H; subst.
+    destruct (quiet_none rest (run_groups_quiet _ _ _ _ _ Ha E)) as [T1 T2].
+    unfold tagvals, errors in *. cbn [filter]. change (is_tag (c_start cp, t_tag, x :: h)) with true.
+    change (is_err (c_start cp, t_tag, x :: h)) with false. cbn [map]. rewrite T1, T2. split; reflexivity.
+  Qed.
+End Quiet.
+
+(* ------------------------------------------------------------------ the diff state never falls through *)
+Lemma first_match_none rules st : first_match rules st = None -> forall r, In r rules -> rmatch (r_re r) st = None.
+Proof.
+  induction rules as [|r0 rules IH]; simpl; intros H r []; subst.
+  - destruct (rmatch (r_re r) st) as [[? ?]|]; [discriminate | reflexivity].
+  - destruct (rmatch (r_re r0) st) as [[? ?]|]; [discriminate | auto].
+Qed.
+
+Lemma any_plus st ch t : m_rest st = ch :: t -> rmatch (RRepeat true 1 None RAny) st <> None.
+Proof.
+  intros Hr. unfold rmatch. cbn [rm].
+  rewrite (greedy_full (fun _ => true) (rm RAny) ltac:(intros s c0 k0; reflexivity) (m_rest st) st [] []
+                       (fun st1 c1 => Some (st1, c1)) (advn st (length (m_rest st)), [])); try reflexivity.
+  - discriminate.
+  - rewrite app_nil_r. reflexivity.
+  - apply forallb_forall. reflexivity.
+  - rewrite Hr. simpl. lia.
+  - lia.
+Qed.
+
+Lemma diff_rules_quiet :
+  forallb (fun r => match r_new r with NsNone => qactionb (r_act r) | _ => false end) diff_rules = true.
+Proof. vm_compute. reflexivity. Qed.
+
+Lemma diff_rules_last :
+  match nth_error diff_rules 2 with Some r => r_re r | None => REmpty end = RRepeat true 1 None RAny.
+Proof. vm_compute. reflexivity. Qed.
+
+Lemma diff_quiet oracle : oracle_quiet oracle ->
+  forall fuel st toks, lex oracle GenLexer.rules fuel [st_diff; st_root] st = LOk toks -> Forall quiet toks.
+Proof.
+  intros Hq. induction fuel as [|f IH]; intros st toks H; [discriminate|].
+  cbn [lex] in H. rewrite diff_lookup in H.
+  destruct (first_match diff_rules st) as [[[r st1] c]|] eqn:Ef.
+  - apply first_match_spec in Ef. destruct Ef as [Hin _].
+    pose proof diff_rules_quiet as Q. rewrite forallb_forall in Q. specialize (Q r Hin).
+    destruct (r_new r); try discriminate. cbn [apply_new] in H.
+    destruct (run_action oracle (lex oracle GenLexer.rules f) r st st1 c) as [t1| | | |] eqn:E1; simpl in H; try discriminate.
+    destruct (lex oracle GenLexer.rules f [st_diff; st_root] st1) as [t2| | | |] eqn:E2; simpl in H; try discriminate.
+    inversion H; subst. apply Forall_app. split; [|eauto].
+    eapply run_action_quiet; eauto.
+  - destruct (m_rest st) as [|ch t] eqn:Er; [inversion H; constructor|].
+    exfalso. pose proof diff_rules_last as L.
+    destruct (nth_error diff_rules 2) as [r|] eqn:N; [|discriminate].
+    apply nth_error_In in N. pose proof (first_match_none _ _ Ef r N) as M. rewrite L in M.
+    exact (any_plus st ch t Er M).
+Qed.
+
+(* ------------------------------------------------------------------ documents *)
+Record section := { s_hdr : text; s_opts : option text; s_body : text }.
+Definition render (s : section) : text := s_hdr s ++ optline (s_opts s) ++ 10%N :: s_body s.
+Definition render_doc (d : list section) : text := concat (map render d).
+
+(* the two-character sequence "#." *)
+Fixpoint has_marker (t : text) : bool :=
+  match t with
+  | x :: ((y :: _) as t') => (N.eqb x 35 && N.eqb y 46) || has_marker t'
+  | _ => false
+  end.
+
+Definition containers : list text := [h_diffx; h_change; h_file].
+Definition json_headers : list text := [h_meta1; h_meta2; h_meta3].
+Definition text_headers : list text := [h_pre1; h_pre2].
+
+Definition wf_sec (s : section) : Prop :=
+  nolf (s_opts s) /\
+  ((In (s_hdr s) containers /\ s_body s = []) \/
+   (In (s_hdr s) (json_headers ++ text_headers ++ [h_diff]) /\ s_body s <> [] /\ has_marker (s_body s) = false)).
+
+Definition wf_later (s : section) : Prop := wf_sec s /\ In (s_hdr s) dotted.
+
+Definition wf_doc (d : list section) : Prop :=
+  match d with [] => True | s :: rest => wf_sec s /\ Forall wf_later rest end.
+
+Lemma has_marker_skipn j : forall b, has_marker b = false -> has_marker (skipn j b) = false.
+Proof.
+  induction j as [|j IH]; intros b H; [assumption|]. destruct b as [|x b]; [reflexivity|]. cbn [skipn].
+  apply IH. destruct b as [|y b]; [reflexivity|]. cbn [has_marker] in H. apply orb_false_iff in H. apply H.
+Qed.
+
+Lemma body_bad body tail :
+  has_marker body = false -> good_tail tail ->
+  forall j, 1 <= j -> j < length body -> bad_look (skipn j body ++ tail).
+Proof.
+  intros Hm Hg j H1 H2. pose proof (has_marker_skipn j body Hm) as Hs.
+  assert (L : length (skipn j body) = length body - j) by apply skipn_length.
+  destruct (skipn j body) as [|x [|y r]] eqn:E; [simpl in L; lia | |].
+  - cbn [app]. destruct Hg as [->|(h & r & Hin & ->)]; [exact I|].
+    unfold dotted in Hin. cbn [In] in Hin.
+    repeat (destruct Hin as [<-|Hin]; [cbn; apply andb_false_r|]). contradiction.
+  - cbn [app bad_look]. cbn [has_marker] in Hs. apply orb_false_iff in Hs. apply Hs.
+Qed.
+
+Lemma cap_text_hdr p h sym pos :
+  cap_text (Build_cap pos (m_pos (advn (mk0 p (h ++ sym) pos) (length h)) - pos)%N (h ++ sym)) = h.
+Proof.
+  unfold cap_text. cbn [c_len c_rest]. rewrite (advn_pos h (mk0 p (h ++ sym) pos) sym eq_refl). cbn [mk0 m_pos].
+  replace (N.to_nat (pos + N.of_nat (length h) - pos)) with (length h) by lia. apply firstn_exact.
+Qed.
+
+(* a rule = group 1 on its header, then the rest *)
+Lemma rule_match G1 REST h sym p pos tail :
+  hdr_ok G1 h ->
+  (forall st c, m_rest st = sym -> exists res, rm REST st c K0 = Some res /\ ends_at tail c res) ->
+  exists st1 new cp,
+    rmatch (RSeq (RGroup 1 G1) REST) (mk0 p (h ++ sym) pos) = Some (st1, new ++ [(1, cp)]) /\
+    m_rest st1 = tail /\ keys_ge2 new /\ cap_text cp = h.
+Proof.
+  intros Hok Hrest.
+  set (st := mk0 p (h ++ sym) pos).
+  set (cp := Build_cap pos (m_pos (advn st (length h)) - pos)%N (h ++ sym)).
+  destruct (Hrest (advn st (length h)) [(1, cp)]) as ([st1 caps] & E & Hend & new & Ec & Hk).
+  { apply (advn_rest h). reflexivity. }
+  cbn [fst snd] in *. subst caps. exists st1, new, cp. split; [|split; [assumption|split; [assumption|]]].
+  - unfold rmatch. apply (Hok REST p sym pos [] (fun st1 c1 => Some (st1, c1))). exact E.
+  - apply cap_text_hdr.
+Qed.
+
+Lemma r1_fail' h sym p pos c k :
+  In h (containers ++ json_headers ++ text_headers ++ [h_diff]) -> rm R1 (mk0 p (h ++ sym) pos) c k = None.
+Proof.
+  intros Hin. cbn [containers json_headers text_headers app In] in Hin.
+  repeat (destruct Hin as [<-|Hin]; [reflexivity|]). contradiction.
+Qed.
+
+Lemma in_all_l h : In h containers -> In h (containers ++ json_headers ++ text_headers ++ [h_diff]).
+Proof. intros. apply in_app_iff. auto. Qed.
+Lemma in_all_r h : In h (json_headers ++ text_headers ++ [h_diff]) -> In h (containers ++ json_headers ++ text_headers ++ [h_diff]).
+Proof. intros. apply in_app_iff. auto. Qed.
+
+(* which rule fires at the start of a section, and what it leaves *)
+Definition fires (r : rule) (h sym tail : text) : Prop :=
+  forall p pos, exists st1 new cp,
+    first_match root_rules (mk0 p (h ++ sym) pos) = Some (r, st1, new ++ [(1, cp)]) /\
+    m_rest st1 = tail /\ keys_ge2 new /\ cap_text cp = h.
+
+Ltac fm_start :=
+  intros p pos; unfold root_rules; cbn [first_match]; unfold rmatch at 1; cbn [r_re mkrule];
+  rewrite r1_fail' by (cbn; tauto).
+
+Ltac fm_skip F :=
+  unfold rmatch at 1; cbn [r_re mkrule rule_container rule_meta rule_preamble rule_diff]; rewrite (F _).
+
+Ltac fm_hit OK Hrest :=
+  match goal with
+  | |- context [rmatch _ (mk0 ?p (?h ++ ?sym) ?pos)] =>
+      let H := fresh in
+      destruct (rule_match _ _ h sym p pos _ OK Hrest) as (st1 & new & cp & H & R & Kn & Ct);
+      cbn [r_re mkrule rule_container rule_meta rule_preamble rule_diff];
+      rewrite H; exists st1, new, cp; repeat split; assumption
+  end.
+
+Lemma fires_container h o tail :
+  In h containers -> nolf o -> fires rule_container h (optline o ++ 10%N :: tail) tail.
+Proof.
+  intros Hin Hn.
+  assert (Hrest : forall st c, m_rest st = optline o ++ 10%N :: tail ->
+                   exists res, rm CONTAINER_REST st c K0 = Some res /\ ends_at tail c res).
+  { intros st c Hr. apply (container_rest o); assumption. }
+  cbn [containers In] in Hin. destruct Hin as [<-|[<-|[<-|[]]]]; fm_start.
+  - fm_hit ok_diffx Hrest.
+  - fm_hit ok_change Hrest.
+  - fm_hit ok_file Hrest.
+Qed.
+
+Section Content.
+  Variables (o : option text) (x : N) (body' tail : text).
+  Hypothesis Hn : nolf o.
+  Hypothesis Hm : has_marker (x :: body') = false.
+  Hypothesis Hg : good_tail tail.
+
+  Lemma content_rest' st c :
+    m_rest st = optline o ++ 10%N :: (x :: body') ++ tail ->
+    exists res, rm CONTENT_REST st c K0 = Some res /\ ends_at tail c res.
+  Proof. intros Hr. apply (content_rest o x body'); auto. apply body_bad; assumption. Qed.
+
+  Lemma fires_meta h : In h json_headers -> fires rule_meta h (optline o ++ 10%N :: (x :: body') ++ tail) tail.
+  Proof.
+    intros Hin. cbn [json_headers In] in Hin. destruct Hin as [<-|[<-|[<-|[]]]]; fm_start.
+    - fm_skip (fail_c_meta1 CONTAINER_REST). fm_hit ok_meta1 content_rest'.
+    - fm_skip (fail_c_meta2 CONTAINER_REST). fm_hit ok_meta2 content_rest'.
+    - fm_skip (fail_c_meta3 CONTAINER_REST). fm_hit ok_meta3 content_rest'.
+  Qed.
+
+  Lemma fires_pre h : In h text_headers -> fires rule_preamble h (optline o ++ 10%N :: (x :: body') ++ tail) tail.
+  Proof.
+    intros Hin. cbn [text_headers In] in Hin. destruct Hin as [<-|[<-|[]]]; fm_start.
+    - fm_skip (fail_c_pre1 CONTAINER_REST). fm_skip (fail_m_pre1 CONTENT_REST). fm_hit ok_pre1 content_rest'.
+    - fm_skip (fail_c_pre2 CONTAINER_REST). fm_skip (fail_m_pre2 CONTENT_REST). fm_hit ok_pre2 content_rest'.
+  Qed.
+
+  Lemma fires_diff : fires rule_diff h_diff (optline o ++ 10%N :: (x :: body') ++ tail) tail.
+  Proof.
+    fm_start. fm_skip (fail_c_diff CONTAINER_REST). fm_skip (fail_m_diff CONTENT_REST).
+    fm_skip (fail_p_diff CONTENT_REST). fm_hit ok_diff content_rest'.
+  Qed.
+End Content.
+
+(* ------------------------------------------------------------------ the engine on a document *)
+Section Doc.
+  Variable oracle : bytes -> text -> option (list token).
+  Hypothesis Hq : oracle_quiet oracle.
+  Notation LEX := (lex oracle GenLexer.rules).
+
+  Lemma fire_step r h sym tail args f p pos toks :
+    fires r h sym tail -> h <> [] ->
+    r_act r = AByGroups (GTok t_tag :: args) -> forallb qargb args = true -> r_new r = NsNone ->
+    1 <= length (groups_of (r_re r)) ->
+    LEX (S f) [st_root] (mk0 p (h ++ sym) pos) = LOk toks ->
+    exists st1 acttoks more,
+      m_rest st1 = tail /\ LEX f [st_root] st1 = LOk more /\ toks = acttoks ++ more /\
+      tagvals acttoks = [h] /\ errors acttoks = [].
+  Proof.
+    intros Hf Hne Hact Hargs Hnew Hng H. cbn [lex] in H. rewrite root_lookup in H.
+    destruct (Hf p pos) as (st1 & new & cp & Efm & Hr & Hk & Hc). rewrite Efm in H.
+    rewrite Hnew in H. cbn [apply_new] in H. unfold run_action in H. rewrite Hact in H.
+    destruct (run_groups oracle (LEX f) (GTok t_tag :: args) 1 (length (groups_of (r_re r))) (new ++ [(1, cp)]))
+      as [t1| | | |] eqn:E1; simpl in H; try discriminate.
+    destruct (LEX f [st_root] st1) as [t2| | | |] eqn:E2; simpl in H; try discriminate.
+    inversion H; subst toks. exists st1, t1, t2. split; [assumption|]. split; [exact E2|]. split; [reflexivity|].
+    destruct h as [|x h]; [congruence|].
+    eapply (bygroups_tag oracle Hq (LEX f) (diff_quiet oracle Hq f)); eauto.
+  Qed.
+
+  Lemma sec_step f st s tail toks :
+    wf_sec s -> good_tail tail -> m_rest st = render s ++ tail ->
+    LEX (S f) [st_root] st = LOk toks ->
+    exists st1 acttoks more,
+      m_rest st1 = tail /\ LEX f [st_root] st1 = LOk more /\ toks = acttoks ++ more /\
+      tagvals acttoks = [s_hdr s] /\ errors acttoks = [].
+  Proof.
+    intros [Hn Hk] Hg Hr H. destruct s as [h o body]. cbn [s_hdr s_opts s_body] in *. unfold render in Hr.
+    cbn [s_hdr s_opts s_body] in Hr. destruct st as [p t pos]. cbn [m_rest] in Hr.
+    destruct Hk as [[Hin Hb] | (Hin & Hb & Hm)].
+    - subst body. assert (Et : t = h ++ (optline o ++ 10%N :: tail)).
+      { rewrite Hr, <- !app_assoc. reflexivity. }
+      clear Hr. subst t. change {| m_prev := p; m_rest := h ++ optline o ++ 10%N :: tail; m_pos := pos |}
+                 with (mk0 p (h ++ optline o ++ 10%N :: tail) pos) in H.
+      eapply (fire_step rule_container); try exact H; try reflexivity.
+      + apply fires_container; assumption.
+      + cbn [containers In] in Hin. destruct Hin as [<-|[<-|[<-|[]]]]; discriminate.
+      + cbn. lia.
+    - destruct body as [|x body']; [congruence|].
+      assert (Et : t = h ++ (optline o ++ 10%N :: (x :: body') ++ tail)).
+      { rewrite Hr, <- !app_assoc. reflexivity. }
+      clear Hr. subst t. change {| m_prev := p; m_rest := h ++ optline o ++ 10%N :: (x :: body') ++ tail; m_pos := pos |}
+                 with (mk0 p (h ++ optline o ++ 10%N :: (x :: body') ++ tail) pos) in H.
+      apply in_app_or in Hin. destruct Hin as [Hin|Hin]; [|apply in_app_or in Hin; destruct Hin as [Hin|Hin]].
+      + eapply (fire_step rule_meta); try exact H; try reflexivity.
+        * apply fires_meta; assumption.
+        * cbn [json_headers In] in Hin. destruct Hin as [<-|[<-|[<-|[]]]]; discriminate.
+        * cbn. lia.
+      + eapply (fire_step rule_preamble); try exact H; try reflexivity.
+        * apply fires_pre; assumption.
+        * cbn [text_headers In] in Hin. destruct Hin as [<-|[<-|[]]]; discriminate.
+        * cbn. lia.
+      + destruct Hin as [<-|[]]. eapply (fire_step rule_diff); try exact H; try reflexivity.
+        * apply fires_diff; assumption.
+        * discriminate.
+        * cbn. lia.
+  Qed.
+
+  Lemma later_tail d : Forall wf_later d -> good_tail (render_doc d).
+  Proof.
+    destruct 1 as [|s d [_ Hd] _]; [left; reflexivity|]. right.
+    exists (s_hdr s), (optline (s_opts s) ++ 10%N :: s_body s ++ render_doc d). split; [assumption|].
+    unfold render_doc. cbn [map concat]. unfold render. rewrite <- !app_assoc. reflexivity.
+  Qed.
+
+  Lemma lex_end f st toks : m_rest st = [] -> LEX f [st_root] st = LOk toks -> toks = [].
+  Proof.
+    destruct st as [p t pos]. cbn [m_rest]. intros -> H. destruct f; [discriminate|].
+    cbn [lex] in H. rewrite root_lookup in H.
+    change (first_match root_rules {| m_prev := p; m_rest := []; m_pos := pos |}) with (@None (rule * mstate * caps)) in H.
+    cbn in H. inversion H. reflexivity.
+  Qed.
+
+  Lemma headers_later : forall d, Forall wf_later d ->
+    forall f st toks, m_rest st = render_doc d -> LEX f [st_root] st = LOk toks ->
+    tagvals toks = map s_hdr d /\ errors toks = [].
+  Proof.
+    induction d as [|s d IH]; intros Hd f st toks Hr H.
+    - rewrite (lex_end f st toks Hr H). split; reflexivity.
+    - inversion Hd as [|? ? [Hs _] Hd']; subst. destruct f; [discriminate|].
+      destruct (sec_step f st s (render_doc d) toks Hs (later_tail d Hd') Hr H)
+        as (st1 & a & more & R1 & L1 & -> & T & E).
+      destruct (IH Hd' f st1 more R1 L1) as [T2 E2].
+      rewrite tagvals_app, errors_app, T, E, T2, E2. split; reflexivity.
+  Qed.
+
+  Lemma headers_doc d f st toks :
+    wf_doc d -> m_rest st = render_doc d -> LEX f [st_root] st = LOk toks ->
+    tagvals toks = map s_hdr d /\ errors toks = [].
+  Proof.
+    destruct d as [|s d]; intros Hw Hr H.
+    - rewrite (lex_end f st toks Hr H). split; reflexivity.
+    - destruct Hw as [Hs Hd]. destruct f; [discriminate|].
+      destruct (sec_step f st s (render_doc d) toks Hs (later_tail d Hd) Hr H)
+        as (st1 & a & more & R1 & L1 & -> & T & E).
+      destruct (headers_later d Hd f st1 more R1 L1) as [T2 E2].
+      rewrite tagvals_app, errors_app, T, E, T2, E2. split; reflexivity.
+  Qed.
+End Doc.
+
+Lemma gen_rules_ok : rules_ok GenLexer.rules = true.
+Proof. vm_compute. reflexivity. Qed.
+
+(* C20, second half, for the model and the DiffX-level rules: on a well-formed document whose contents contain no
+   "#.", no Error token is produced and the Name.Tag tokens are exactly the section headers, in order. *)
+Theorem headers_thm :
+  forall oracle,
+    oracle_lossless oracle -> (forall name txt, oracle name txt <> None) -> oracle_quiet oracle ->
+    forall d, wf_doc d ->
+    exists toks,
+      lex_default oracle GenLexer.rules (render_doc d) = LOk toks /\
+      tagvals toks = map s_hdr d /\ errors toks = [].
+Proof.
+  intros oracle Hl Ht Hq d Hw.
+  destruct (lex_default_lossless oracle GenLexer.rules gen_rules_ok Hl Ht (render_doc d)) as (toks & E & _).
+  exists toks. split; [exact E|].
+  unfold lex_default, lex_text in E. change (frev [st_root]) with [st_root] in E.
+  eapply (headers_doc oracle Hq d _ (init_state (render_doc d))); eauto.
+Qed.
+
+(* the sub-lexer oracle with its token types hidden: what remains visible are the tokens of the DiffX-level rules *)
+Definition hide (o : bytes -> text -> option (list token)) : bytes -> text -> option (list token) :=
+  fun name t => option_map (map (fun tok => (fst (fst tok), B "sub", snd tok))) (o name t).
+
+Lemma hide_quiet o : oracle_quiet (hide o).
+Proof.
+  intros name txt toks. unfold hide. destruct (o name txt) as [l|]; simpl; [|discriminate].
+  intros E. inversion E; subst. clear E. induction l; simpl; constructor; [|assumption]. split; reflexivity.
+Qed.
+
+Lemma hide_lossless o : oracle_lossless o -> oracle_lossless (hide o).
+Proof.
+  intros H name txt toks. unfold hide. destruct (o name txt) as [l|] eqn:E; simpl; [|discriminate].
+  intros E'. inversion E'; subst. rewrite map_map. cbn [tok_val snd]. apply (H name txt l E).
+Qed.
+
+Lemma hide_total o : (forall name txt, o name txt <> None) -> forall name txt, hide o name txt <> None.
+Proof. intros H name txt. unfold hide. specialize (H name txt). destruct (o name txt); [discriminate | congruence]. Qed.
+
+(* ------------------------------------------------------------------ a concrete well-formed document *)
+Definition ex_doc : list section :=
+  [ {| s_hdr := h_diffx; s_opts := Some (ascii_text "version=1.0"); s_body := [] |};
+    {| s_hdr := h_change; s_opts := None; s_body := [] |};
+    {| s_hdr := h_file; s_opts := None; s_body := [] |};
+    {| s_hdr := h_meta3; s_opts := Some (ascii_text "format=json, length=3"); s_body := ascii_text "{}" ++ [10%N] |};
+    {| s_hdr := h_diff; s_opts := Some (ascii_text "length=12"); s_body := ascii_text "delta 3" ++ 10%N :: ascii_text "abc#" ++ [10%N] |} ].
+
+Lemma ex_doc_wf : wf_doc ex_doc.
+Proof.
+  unfold ex_doc, wf_doc, wf_later, wf_sec, dotted, containers, json_headers, text_headers.
+  repeat match goal with
+         | |- _ /\ _ => split
+         | |- Forall _ (_ :: _) => constructor
+         | |- Forall _ [] => constructor
+         end; cbn; try reflexivity; try tauto; try (right; split; [tauto | split; [discriminate | reflexivity]]).
+Qed.
